@@ -458,6 +458,16 @@ def run_c06(tier, seed):
                     2: other}
             jobs_dfs.append((cfg, prog, 2, 60 if tier == 'quick' else 400, seed, tid))
             tid += 1000
+            if not st:
+                # the same through FanoutCache.transact: the block belongs to the thread, not to the object
+                cfg = dict(base_cfg(rng, True, 'inline', stats=False), kind='fanout', txvia='cache')
+                o2 = list(other)
+                if o2[0]['op'] == 'txbegin':
+                    # a block of its own with two writes that raises: nothing of it may stay
+                    o2 = [op('txbegin'), op('set', k=KB, v=2, ttl=[], tag=0), op('set', k=KA, v=9, ttl=[], tag=0), op('txraise'),
+                          op('get', k=KA, fx=0, ft=0, mk='miss')]
+                jobs_dfs.append((cfg, {1: list(prog[1]), 2: o2}, 2, 200 if tier == 'quick' else 600, seed, tid))
+                tid += 1000
     m = 150 if tier == 'quick' else 3000
     for i in range(m):
         prog = {1: tx_program(rng, rng.randint(1, 4), rng.random() < 0.4, rng.choice([None, None, 1, 2, 3, 4]),
